@@ -224,12 +224,18 @@ def xml_nil(sx, p):
     return sx.And(nil, not nillable, is_client_validation_fault(out.fault))
 
 
+class PosInnerN(ComplexModel):
+    __namespace__ = 'tns'
+    v = Integer
+
+
 NULL_GRID = [('Integer', Integer, True), ('Mandatory.Integer', M.Integer, False),
              ('Unicode(nillable=False)', Unicode(nillable=False), False),
              ("Unicode(values=['a','b'])", Unicode(values=['a', 'b']), True),
              ('Integer(values=[1,2])', Integer(values=[1, 2]), True),
              ("Unicode(values=['a'],nillable=False)", Unicode(values=['a'], nillable=False), False),
-             ('Integer(ge=1,le=9)', Integer(ge=1, le=9), True), ("Unicode(pattern='a+',min_len=1)", Unicode(pattern='a+', min_len=1), True)]
+             ('Integer(ge=1,le=9)', Integer(ge=1, le=9), True), ("Unicode(pattern='a+',min_len=1)", Unicode(pattern='a+', min_len=1), True),
+             ('complex', PosInnerN, True), ('complex(nillable=False)', PosInnerN.customize(nillable=False), False)]
 NULL_HOLDERS = {}
 
 
@@ -447,7 +453,7 @@ class PosOuter(ComplexModel):
 POSITIONS = ['top', 'nested', 'array-member', 'repeated-member', 'xml-attribute']
 
 
-@harness('C05', params=[(pos, fam) for pos in POSITIONS for fam in ('xml', 'json') if not (pos == 'xml-attribute' and fam == 'json')],
+@harness('C05', params=[(pos, fam) for pos in POSITIONS for fam in ('xml', 'json')],
          label=lambda p: '%s %s' % p,
          functions=['spyne.protocol.xml.XmlDocument.complex_from_element', 'spyne.protocol.xml.XmlDocument.array_from_element',
                     'spyne.protocol.dictdoc.hier.HierDictDocument._doc_to_object'],
@@ -478,7 +484,8 @@ def constraint_positions(sx, p):
         want = sx.int('v')
         ok = sx.And(want >= 0, want <= 200)
         doc = {'top': {'top': want}, 'nested': {'inner': {'v': want}}, 'array-member': {'arr': [7, want]},
-               'repeated-member': {'many': [7, want]}}[pos]
+               'repeated-member': {'many': [7, want]},
+               'xml-attribute': {'inner': {'v': 7, 'att': want}}}[pos]        # outside XML an XmlAttribute member is a plain member
         out = run_soft(lambda: JSON._doc_to_object(CTX, PosOuter, doc, JSON.validator))
     sx.observe('accepted', out.accepted)
     if not out.accepted:
